@@ -531,7 +531,16 @@ static void k_asn1(Tape &t)
 	Bytes mm = m;
 	mm.resize(m.size() + 160);
 	size_t ml = br_ecdsa_asn1_to_raw(mm.data(), m.size());
-	VF_CHECK(ml == 0, "asn1_to_raw accepts a malformed signature (%s): returned %zu", what, ml);
+	// (a mutation can by accident yield another well-formed signature, e.g. a longer r swallowing the tag
+	// of a two-byte s: the independent parser decides what is malformed)
+	bool still_wellformed = false;
+	{
+		const unsigned char *pp = m.data();
+		ECDSA_SIG *chk = d2i_ECDSA_SIG(nullptr, &pp, (long)m.size());
+		if (chk) { still_wellformed = pp == m.data() + m.size(); ECDSA_SIG_free(chk); }
+	}
+	if (still_wellformed) stats.excluded++;
+	else VF_CHECK(ml == 0, "asn1_to_raw accepts a malformed signature (%s): returned %zu", what, ml);
 	OPENSSL_free(der);
 	ECDSA_SIG_free(sg);
 	stats.cls("asn1");
